@@ -227,6 +227,8 @@ class Library:
             items = list(it.iterate(x))
             keys = [it.call(key, [v], {}) if key is not None else v for v in items]
             if any(not _conc(k) for k in keys):
+                if key is None and not reverse and all(isinstance(k, str) or (isinstance(k, Sym) and k.is_label()) for k in keys):
+                    return VList(sorted_labels(it, [it.label_term(k) for k in keys]))
                 raise Unsupported('sorted with symbolic keys')
             idx = sorted(range(len(items)), key=lambda i: keys[i], reverse=reverse)
             return VList([items[i] for i in idx])
@@ -811,6 +813,13 @@ class Library:
                         raise Unsupported('math.' + name + ' symbolic')
                     return N(mf)
                 return v
+        if mod == 'operator':
+            if name == 'itemgetter':
+                return N(lambda *idx: Native('itemgetter', (lambda seq, idx=idx: it.getitem(seq, idx[0]) if len(idx) == 1 else tuple(it.getitem(seq, i) for i in idx))))
+            import operator as _op
+            if name in ('and_', 'or_', 'xor', 'add', 'mul', 'sub'):
+                node = {'and_': ast.BitAnd, 'or_': ast.BitOr, 'xor': ast.BitXor, 'add': ast.Add, 'mul': ast.Mult, 'sub': ast.Sub}[name]()
+                return N(lambda a, b, node=node: it.binop(node, a, b))
         if mod == 'sortedcontainers' and name == 'SortedList':
             return N(lambda x=(): _sorted_list(it, x))
         return Opaque(mod + '.' + name)
@@ -818,6 +827,41 @@ class Library:
 
 class UuidHex:
     pass
+
+
+LabelLE = z3.Function('label_le', LabelSort, LabelSort, z3.BoolSort())
+
+
+def label_order_axioms():
+    """python string comparison restricted to labels: some total order (which one is irrelevant)"""
+    a, b, c = z3.Consts('a!lo b!lo c!lo', LabelSort)
+    return [z3.ForAll([a], LabelLE(a, a)),
+            z3.ForAll([a, b], z3.Implies(z3.And(LabelLE(a, b), LabelLE(b, a)), a == b)),
+            z3.ForAll([a, b, c], z3.Implies(z3.And(LabelLE(a, b), LabelLE(b, c)), LabelLE(a, c))),
+            z3.ForAll([a, b], z3.Or(LabelLE(a, b), LabelLE(b, a)))]
+
+
+def sorted_labels(it, terms):
+    """sorted(<labels>): fresh labels constrained to be a permutation of the arguments that is ascending in the
+    (uninterpreted, total) label order. Axiom of `sorted` (DESIGN §3.5), checked differentially against CPython."""
+    import itertools as _it
+    n = len(terms)
+    if n > 4:
+        raise Unsupported('sorted of more than 4 symbolic labels')
+    ctx = it.ctx
+    if not getattr(ctx, 'label_order', False):
+        for ax in label_order_axioms():
+            ctx.assume(ax)
+        ctx.label_order = True
+    out = [ctx.fresh(LabelSort, 'sorted') for _ in range(n)]
+    perms = []
+    for p in _it.permutations(range(n)):
+        perms.append(z3.And([out[i] == terms[p[i]] for i in range(n)]) if n else z3.BoolVal(True))
+    if n:
+        ctx.assume(z3.Or(perms))
+    for i in range(n - 1):
+        ctx.assume(LabelLE(out[i], out[i + 1]))
+    return [Sym(t) for t in out]
 
 
 class PartialLabel:
